@@ -146,7 +146,7 @@ QMonStep(g0, e) ==
             cancellation (a cancelled consumer stays cancelled), nor invents one *)
          Zero(MOut([g EXCEPT !.exited = @ \cup {e.c}, !.exits = @ + 1],
                    Chk("C20.once", e.c, e.c \in g.entered /\ e.c \notin g.exited /\ ~e.verr)
-                   \cup Chk("C20.exitkind", e.c, e.verr \/ IF e.how = "canc" THEN e.c \in g.cnc
+                   \cup Chk("C20.exitkind", e.c, e.verr \/ e.c >= 50 \/ IF e.how = "canc" THEN e.c \in g.cnc     \* (ids >= 50: the inner one of two nested blocks)
                                                           ELSE e.c \notin g.cnc /\ <<e.c, e.how>> \in g.rel),
                    Hit("C20.once", TRUE) \cup Hit("C20.exc", e.how = "exc") \cup Hit("C20.cancbody", e.how = "canc")))
     [] e.e = "cwait" ->
